@@ -70,10 +70,15 @@ static bool encode_with_limit(const std::string& f, const std::string& kind, lon
 struct DeepJob { std::string op; long depth; bool ok; std::string err; };
 static json deep_array(long depth) { json a(json_array_arg); for (long i = 1; i < depth; ++i) { json b(json_array_arg); b.push_back(std::move(a)); a = std::move(b); } return a; }
 static json deep_object(long depth) { json a(json_object_arg); for (long i = 1; i < depth; ++i) { json b(json_object_arg); b.try_emplace("a", std::move(a)); a = std::move(b); } return a; }
+template <class J> static J deep_alternating(long depth) { J a(json_array_arg); for (long i = 1; i < depth; ++i) { if (i % 2) { J b(json_object_arg); b.try_emplace("a", std::move(a)); a = std::move(b); } else { J b(json_array_arg); b.push_back(std::move(a)); a = std::move(b); } } return a; }
 static void* deep_run(void* p) {
-    DeepJob* j = (DeepJob*)p; j->ok = true;
+    DeepJob* j = (DeepJob*)p; j->ok = true; hz::install_altstack();
     try {
         if (j->op == "destroy-object") { json v = deep_object(j->depth); (void)v; }
+        else if (j->op == "destroy-alternating") { json v = deep_alternating<json>(j->depth); (void)v; }
+        else if (j->op == "destroy-alternating-ojson") { ojson v = deep_alternating<ojson>(j->depth); (void)v; }
+        else if (j->op == "copy-alternating") { json v = deep_alternating<json>(j->depth); json w(v); if (!(w == v)) { j->ok = false; j->err = "copy not equal"; } }
+        else if (j->op == "dump-alternating") { json v = deep_alternating<json>(j->depth); std::string s; v.dump(s); if (s.size() < (size_t)j->depth) { j->ok = false; j->err = "dump too short"; } }
         else if (j->op == "parse-destroy") { std::string s(j->depth, '['); s += std::string(j->depth, ']'); json v = json::parse(s, json_options{}.max_nesting_depth((int)j->depth)); (void)v; }
         else {
             json v = deep_array(j->depth);
@@ -99,6 +104,17 @@ int main(int argc, char** argv) {
             bool ok = decode_with_limit(f, in, limit, err);
             if (ok != c["accept"].as_bool()) fail(idx, c, ok ? "too-deep-accepted" : "within-limit-rejected", err);
             else if (ok) { std::string e2; if (!decode_with_limit(f, in, 1024, e2)) fail(idx, c, "rejected-with-default-limit", e2); }
+        } else if (k == "sibling") {
+            const std::string& f = c["f"].str(); long depth = (long)c["depth"].as_int(); int limit = (int)c["limit"].as_int(); long cnt = (long)c["count"].as_int();
+            auto open = bv::bytes_of(c["open"]), close = bv::bytes_of(c["close"]), item = bv::bytes_of(c["item"]);
+            std::vector<uint8_t> in = open; auto sibs = rep(item, cnt); in.insert(in.end(), sibs.begin(), sibs.end());
+            // the nest: depth-1 further levels of the plainest array form, then a scalar
+            std::vector<uint8_t> no, nc, leaf;
+            if (f == "json") { no = {'['}; nc = {']'}; leaf = {'1'}; } else if (f == "cbor") { no = {0x81}; leaf = {1}; } else if (f == "msgpack") { no = {0x91}; leaf = {1}; } else { no = {'['}; nc = {']'}; leaf = {'i', 1}; }
+            auto o2 = rep(no, depth - 1), c2 = rep(nc, depth - 1); in.insert(in.end(), o2.begin(), o2.end()); in.insert(in.end(), leaf.begin(), leaf.end()); in.insert(in.end(), c2.begin(), c2.end());
+            in.insert(in.end(), close.begin(), close.end());
+            bool ok = decode_with_limit(f, in, limit, err);
+            if (ok != c["accept"].as_bool()) fail(idx, c, ok ? "too-deep-accepted-after-siblings" : "within-limit-rejected-after-siblings", err);
         } else if (k == "enc-depth") {
             const std::string& f = c["f"].str(); long depth = (long)c["depth"].as_int(); int limit = (int)c["limit"].as_int(); const std::string& kind = c["kind"].str();
             if (f == "bson" && (depth < 1 || kind.rfind("array", 0) == 0)) return;      // a BSON document is rooted in an object
